@@ -406,6 +406,17 @@ func (s *Solver) Values(terms []*Term) []uint64 {
 		s.send("(get-value (" + q + "))")
 		txt := s.readSexp()
 		res[i] = parseModelValue(txt, t.sort)
+		if t.sort.k == sFP64 || t.sort.k == sFP32 {
+			// fp.to_ieee_bv is unspecified on NaN (z3 answers with an arbitrary pattern): ask
+			s.send("(get-value ((fp.isNaN " + t.name() + ")))")
+			if strings.Contains(s.readSexp(), "true") {
+				if t.sort.k == sFP64 {
+					res[i] = 0x7ff8000000000001
+				} else {
+					res[i] = 0x7fc00001
+				}
+			}
+		}
 	}
 	return res
 }
